@@ -350,7 +350,8 @@ class H11Protocol:
         # and HTTP/2 takes over, so Hypercorn ignores the upgrade and
         # responds in HTTP/1.1. Use a preflight OPTIONS request to
         # initiate the upgrade if really required (or just use h2).
-        if upgrade_value.lower() == "h2c" and not has_body:
+        # (A HTTP/1.0 client cannot be sent a 101, nor upgraded)
+        if upgrade_value.lower() == "h2c" and not has_body and event.http_version == b"1.1":
             await self._send_h11_event(
                 h11.InformationalResponse(
                     status_code=101,
